@@ -79,6 +79,7 @@ fn classify_case(c: &Case, obs: &mut Obs) {
         PointClass::Collinear => "pts_collinear",
         PointClass::Rough => "pts_rough",
         PointClass::AdjacentFloats => "pts_adjacent_floats",
+        PointClass::LargeStructured => "pts_large_structured",
         PointClass::Bytes => "pts_bytes",
     });
     obs.class(match c.metric {
@@ -115,6 +116,53 @@ struct Brute {
     m: f64,
     /// distance query -> point i by the harness' own formula, evaluated in f64 on the converted coordinates
     dref: Vec<f64>,
+    /// rd[i] equals the reduced distance as a real number (integer arithmetic on dyadic coordinates):
+    /// comparisons of such a value with the reduced radius decide "strictly inside / outside" exactly
+    exact: Vec<bool>,
+}
+
+/// The reduced distance as an exact real number, if the coordinates are multiples of 2^-20 below 2^30
+/// and the result is a float; `None` otherwise (and always for Lp).
+fn exact_reduced(metric: Metric, q: &[f64], p: &[f64]) -> Option<f64> {
+    const SCALE: f64 = 1048576.0;
+    let int = |x: f64| -> Option<i128> {
+        let y = x * SCALE;
+        if y.is_finite() && y.fract() == 0.0 && y.abs() < 1.0e15 {
+            Some(y as i128)
+        } else {
+            None
+        }
+    };
+    let mut diffs: Vec<i128> = Vec::with_capacity(q.len());
+    for (a, b) in q.iter().zip(p.iter()) {
+        diffs.push((int(*a)? - int(*b)?).abs());
+    }
+    let (s, unit): (i128, f64) = match metric {
+        Metric::L1 => (diffs.iter().sum(), SCALE),
+        Metric::LInf => (diffs.iter().copied().max().unwrap_or(0), SCALE),
+        Metric::L2 => (diffs.iter().map(|d| d * d).sum(), SCALE * SCALE),
+        Metric::Lp(_) => return None,
+    };
+    let f = s as f64;
+    if f as i128 != s {
+        return None;
+    }
+    Some(f / unit)
+}
+
+/// `x` moved by `u` ulps of the element type (x >= 0)
+fn nudge<F: Float>(x: F, u: i8, single: bool) -> F {
+    let v = f64_of(x);
+    if !(v.is_finite() && v >= 0.0) || u == 0 {
+        return x;
+    }
+    if single {
+        let b = ((v as f32).to_bits() as i64 + u as i64).clamp(0, 0x7f7f_ffff);
+        F::cast(f32::from_bits(b as u32) as f64)
+    } else {
+        let b = (v.to_bits() as i128 + u as i128).clamp(0, 0x7fef_ffff_ffff_ffff);
+        F::cast(f64::from_bits(b as u64))
+    }
 }
 
 type Answer<'a, F> = Vec<(ArrayView1<'a, F>, usize)>;
@@ -303,7 +351,13 @@ fn run<F: Float, D: Distance<F>>(c: &Case, dist: D, powf_metric: bool, obs: &mut
         };
         let qv: Vec<f64> = qp.iter().map(|x| f64_of(*x)).collect();
         let dref: Vec<f64> = rows64.iter().map(|rv| reference(ref_metric, &qv, rv).0).collect();
-        let br = Brute { rd, d, order, m, dref };
+        let exact: Vec<bool> = rows64
+            .iter()
+            .zip(rd.iter())
+            .map(|(rv, r)| exact_reduced(c.metric, &qv, rv) == Some(*r))
+            .collect();
+        obs.class_if(n > 0 && exact.iter().all(|e| *e), "exact_geometry");
+        let br = Brute { rd, d, order, m, dref, exact };
         // second-order term: a leaf centre (mean of up to n rounded coordinates) may lie outside the hull by ~n eps X
         let geo_tol = GEO_EPS * (dim as f64 + 8.0) * eps * (br.m + (n as f64 + 2.0) * eps * xmax * (dim as f64).sqrt());
 
@@ -379,9 +433,15 @@ fn knn_query<'a, F: Float>(
             format!("{kind}: query {qi}: k = {k}, n = {n}: {} points returned, expected min(k, n) = {want}", ans.len())
         });
         let Some(ids) = structure("knn", kind, batch, &ans, obs) else { continue };
-        let got: Vec<(f64, f64)> = ids
+        let got: Vec<(f64, f64, bool)> = ids
             .iter()
-            .map(|i| (br.rd.get(*i).copied().unwrap_or(f64::NAN), br.d.get(*i).copied().unwrap_or(f64::NAN)))
+            .map(|i| {
+                (
+                    br.rd.get(*i).copied().unwrap_or(f64::NAN),
+                    br.d.get(*i).copied().unwrap_or(f64::NAN),
+                    br.exact.get(*i).copied().unwrap_or(false),
+                )
+            })
             .collect();
         let ascending = got.windows(2).all(|w| w[0].0 <= w[1].0);
         obs.ensure(ascending, &format!("knn:not-ascending:{kind}"), || {
@@ -392,7 +452,7 @@ fn knn_query<'a, F: Float>(
         sorted.sort_by(|a, b| a.0.partial_cmp(&b.0).unwrap_or(std::cmp::Ordering::Equal));
         let tol_kind = kind_tol(kind, powf_metric, geo_tol);
         let mut inexact = false;
-        for (j, (grd, gd)) in sorted.iter().enumerate() {
+        for (j, (grd, gd, gex)) in sorted.iter().enumerate() {
             let Some(t) = br.order.get(j) else { break };
             let (trd, td) = (br.rd.get(*t).copied().unwrap_or(f64::NAN), br.d.get(*t).copied().unwrap_or(f64::NAN));
             if *grd == trd {
@@ -401,12 +461,15 @@ fn knn_query<'a, F: Float>(
             inexact = true;
             // a subset can only be farther than the truth; "equal" within the stated tolerance
             let band = if std::env::var_os("C07_NO_GEO_TOL").is_some() { 0.0 } else { BAND_EPS * eps * td };
-            let ok = *grd > trd && *gd <= td + band + tol_kind;
+            // both reduced distances are exact real numbers: they differ, so the returned point really is farther
+            let both_exact = *gex && br.exact.get(*t).copied().unwrap_or(false);
+            let ok = !both_exact && *grd > trd && *gd <= td + band + tol_kind;
             if !ok {
                 obs.fail(
                     format!("knn:wrong-distances:{kind}"),
                     format!(
-                        "{kind}: query {qi} (k = {k}, n = {n}): the {j}-th smallest returned distance is {gd} (reduced {grd}) but the {j}-th nearest stored point is at {td} (reduced {trd}); returned rows {ids:?}"
+                        "{kind}: query {qi} (k = {k}, n = {n}): the {j}-th smallest returned distance is {gd} (reduced {grd}) but the {j}-th nearest stored point is at {td} (reduced {trd}); first returned rows {:?}",
+                        ids.iter().take(24).collect::<Vec<_>>()
                     ),
                 );
                 break;
@@ -454,6 +517,37 @@ fn range_query<'a, F: Float, D: Distance<F>>(
                 }
             }
         }
+        Radius::ToPointUlps(i, u) => {
+            obs.class("radius_to_point_ulps");
+            if n == 0 {
+                F::zero()
+            } else {
+                let row = batch.row(idx(*i, n).min(n - 1));
+                match vengine::guard(|| dist.distance(qp.view(), row)) {
+                    Ok(v) => nudge(v, *u, _c.single),
+                    Err(m) => {
+                        obs.fail("panic:distance", format!("distance(query, stored point) panicked: {m}"));
+                        return;
+                    }
+                }
+            }
+        }
+        Radius::ToRankUlps(rank, u) => {
+            obs.class("radius_to_rank_ulps");
+            match br.order.get((*rank as usize).min(n.saturating_sub(1))) {
+                None => F::zero(),
+                Some(i) => {
+                    let row = batch.row((*i).min(n.saturating_sub(1)));
+                    match vengine::guard(|| dist.distance(qp.view(), row)) {
+                        Ok(v) => nudge(v, *u, _c.single),
+                        Err(m) => {
+                            obs.fail("panic:distance", format!("distance(query, stored point) panicked: {m}"));
+                            return;
+                        }
+                    }
+                }
+            }
+        }
         Radius::Between(g) => {
             obs.class("radius_between");
             let mut ds: Vec<f64> = br.order.iter().filter_map(|i| br.d.get(*i).copied()).collect();
@@ -488,15 +582,24 @@ fn range_query<'a, F: Float, D: Distance<F>>(
     }
 
     // ---- classify every stored point against the radius
-    // 0 = must be absent, 1 = free (rounding band), 2 = exactly on the radius, 3 = must be present
+    // 0 = must be absent, 1 = free (rounding band), 2 = exactly on the radius, 3 = must be present,
+    // 4 = must be present without any allowance: rd is the exact real reduced distance, so rd < fl(r') implies
+    // rd < r' over the reals (fl is the nearest float and rd is a float): the point IS strictly inside
     let lo = rp * (1.0 - BAND_EPS * eps);
     let hi = rp * (1.0 + BAND_EPS * eps);
     let status: Vec<u8> = br
         .rd
         .iter()
-        .map(|r| {
+        .zip(br.exact.iter())
+        .map(|(r, ex)| {
             if *r == rp {
                 2
+            } else if *ex {
+                if *r < rp {
+                    4
+                } else {
+                    0
+                }
             } else if *r < lo {
                 3
             } else if *r > hi {
@@ -529,7 +632,11 @@ fn range_query<'a, F: Float, D: Distance<F>>(
     let on_radius: Vec<usize> = (0..n).filter(|i| status.get(*i) == Some(&2)).collect();
     obs.class_if(!on_radius.is_empty(), "point_exactly_on_radius");
     obs.class_if(status.iter().any(|s| *s == 1), "point_in_rounding_band");
-    obs.class_if(status.iter().all(|s| *s == 3) && n > 0, "range_covers_all");
+    obs.class_if(status.iter().all(|s| *s >= 3) && n > 0, "range_covers_all");
+    obs.class_if(
+        (0..n).any(|i| status.get(i) == Some(&4) && br.rd.get(i).map(|r| *r >= lo).unwrap_or(false)),
+        "exact_point_ulps_inside_radius",
+    );
     obs.class_if(status.iter().all(|s| *s == 0) && n > 0, "range_covers_none");
     obs.nontrivial_if(!on_radius.is_empty());
 
@@ -574,11 +681,24 @@ fn range_query<'a, F: Float, D: Distance<F>>(
                     if !here && !excused {
                         obs.fail(
                             format!("range:inside-point-missing:{kind}"),
-                            format!("{kind}: query {qi}, radius {range_f} (reduced {rp}): row {i} at distance {di} (reduced {rdi}) lies strictly inside but was not returned; returned rows {ids:?}"),
+                            format!("{kind}: query {qi}, radius {range_f} (reduced {rp}): row {i} at distance {di} (reduced {rdi}) lies strictly inside but was not returned; {} rows returned, first {:?}", ids.len(), ids.iter().take(24).collect::<Vec<_>>()),
                         );
                     }
                     if !here && excused {
                         free_used = true;
+                    }
+                }
+                4 => {
+                    if !here {
+                        obs.fail(
+                            format!("range:inside-point-missing:{kind}"),
+                            format!(
+                                "{kind}: query {qi} = {:?}, radius {range_f} (reduced {rp}): row {i} at distance {di} (reduced {rdi}, exact) lies strictly inside but was not returned; {} rows returned, first {:?}",
+                                q.point,
+                                ids.len(),
+                                ids.iter().take(24).collect::<Vec<_>>()
+                            ),
+                        );
                     }
                 }
                 _ => {}
